@@ -342,14 +342,28 @@ GENERIC = ["{foo}", "{", "{0}", "{default_kid:>999999999}", "%s%n", "a" * 4097, 
            "503=-1", "503=0", "404=0", "503=99999999999999999999", "200=1", "204=1", "304=1", "100=1", "101=1",
            "1,2,3", "1,x", "10:20:30Z", "2024-03-05T10:20:30Z,5", "mp4a", "ec-3", "any", "im1t", "im1t|etd1", "wvtt",
            "native", "dashjs", "shaka", "4.7.4", "vod", "live", "odvod",
-           "http://x/%41?a=b&c=d", "https%3A%2F%2Fx%2F", "bbb_a1", "bbb_v1", "eng", "und"]
+           "http://x/%41?a=b&c=d", "https%3A%2F%2Fx%2F", "bbb_a1", "bbb_v1", "eng", "und",
+           # checklist 7: entity-like text, literal + & ; =, percent escapes of themselves, hex / base64 / JSON text,
+           # IDN, all-zero and box-header-like byte strings; checklist 5: legal but unusual spellings
+           "&nbsp;", "&#0;", "&lt;b&gt;", "&amp;amp;", "a+b", "a b", "a;b", "a&b=c", "%2B", "%00", "%25%32%35", "%u0041",
+           "0xdeadbeef", "0X1F", "deadbeefdeadbeefdeadbeefdeadbeef", "AAAAAAAAAAAAAAAAAAAAAA==", "3q2-7w", "====",
+           "{\"a\": 1}", "[\"a\"]", "\"x\"", "xn--nxasmq6b.test", "http://\u00fc\u00f1\u00ee.test/\u4e2d", "\u0000\u0000\u0000\u0000",
+           "\u0000\u0000\u0000\u0008free", "\u0000\u0000\u0000\u0001mdat", "False", "false", "True", "no", "off", "1000.0", "9e4", "1E3",
+           "2024-03-05T10:20:30-03:30", "2024-03-05T10:20:30-00:30", "2024-03-05T10:20:30+12:45",
+           "2024-03-05T10:20:30+14:00", "2024-03-05T10:20:30-14:00", "2024-03-05T10:20:30+14:01",
+           "all-moov", "all-cenc", "all-pro-moov-cenc", "playready-pro-cenc,marlin-moov", "clearkey-cenc,all"]
 
 INT_EDGE = ["0", "1", "-1", "2", "30", "60", "1800", "86400", "2147483647", "2147483648", "4294967296",
             "9007199254740993", "99999999999", "999999999999999", "9" * 30, "-2", "-99999999999", "-" + "9" * 30,
             # both signs of the 32-bit boundaries and of the limits check_option_values applies
             "-30", "-1800", "-86400", "-2147483647", "-2147483648", "-2147483649", "-4294967295", "-4294967296",
             "4294967295", "3000000000", "-3000000000", "3162240000", "-3162240000", "3162240001", "-3162240001",
-            "5000000", "5000001", "-5000000", "10000", "10001", "65535", "65536", "-65536", "400000000", "-400000000"]
+            "5000000", "5000001", "-5000000", "10000", "10001", "65535", "65536", "-65536", "400000000", "-400000000",
+            # checklist 2: 2^32+1, 2^33 +-1 (PTS wrap), 2^53 +-1, 2^63 +-1, 2^64, every validator limit +-1
+            "4294967297", "8589934591", "8589934592", "8589934593", "9007199254740991", "9007199254740992",
+            "9223372036854775807", "9223372036854775808", "-9223372036854775808", "-9223372036854775809",
+            "18446744073709551615", "18446744073709551616", "4095", "4096", "4097", "9999", "65534", "99999", "100000",
+            "100001", "4999999", "3", "1000.0", "9e4"]
 
 
 def all_option_names() -> list:
@@ -377,16 +391,22 @@ DATES = ["0100-01-01T00:00:00Z", "1000-06-01T00:00:00Z", "1479-01-01T00:00:00Z",
          "2024-03-05T10:20:31Z", "2024-03-05T10:20:29.999Z", "2030-01-01T00:00:00Z", "1969-12-31T23:59:59Z",
          "0001-01-01T00:00:00Z", "9999-12-31T23:59:59Z", "2024-03-05T10:20:30", "2024-03-05T10:20:30+05:30",
          "2024-03-05T10:20:30-23:59", "2024-03-05", "05/03/2024", "2024-03-05T00:00:00Z", "2024-01-01T00:00:00Z",
-         "1970-01-01T00:00:00Z", "2024-03-04T10:20:30Z", ""]
-ERRSPECS = ["503=2023-05-01T12:00:00+99:00", "404=2024-03-05T10:20:30-24:00", "503=2024-03-05T10:20:30+23:59",
+         "1970-01-01T00:00:00Z", "2024-03-04T10:20:30Z", "",
+         # legal but unusual UTC offsets (checklist 5) and the stream ages 0, 1 s, = depth +- 1 s (checklist 3)
+         "2024-03-05T10:20:30-03:30", "2024-03-05T10:20:30-00:30", "2024-03-05T10:20:30+12:45", "2024-03-05T10:20:30+14:00",
+         "2024-03-05T10:20:30-14:00", "2024-03-05T10:20:29Z", "2024-03-05T10:19:59Z", "2024-03-05T10:20:00Z",
+         "2024-03-05T10:20:01Z", "1900-01-01T00:00:00Z", "2036-02-07T06:28:16Z", "2040-02-06T06:28:16Z"]
+ERRSPECS = ["503=2024-03-05T07:50:30-03:30", "503=2024-03-05T23:05:30+12:45", "503=2024-03-06T00:20:30+14:00", "503=1,2,3",
+            "503=2023-05-01T12:00:00+99:00", "404=2024-03-05T10:20:30-24:00", "503=2024-03-05T10:20:30+23:59",
             "503=0100-01-01T00:00:00Z", "404=1", "503=2", "503=1,503=2", "404=1,503=1", "503=0", "503=-1", "410=3,504=4", "99=1", "0=1", "-1=1",
             "600=1", "99999=1", "200=1", "204=1", "304=1", "100=1", "503=99999999999999999999", "503=10:20:30Z",
             "503=10:20:28Z", "503=2024-03-05T10:20:30Z", "503=2024-03-05T10:20:00Z,404=2", "404=2024-03-05",
             "503=10:20:30Z,503=10:20:34Z", "none", "", "503=1,none=2"]
 VALID_BY_KIND = {
-    ".bool": ["0", "1", "true", "on", "false", "x"],
+    ".bool": ["0", "1", "true", "on", "false", "x", "", "False", "TRUE", "off", "no"],
     ".intOrNone": INT_EDGE + ["", "none", " 7 ", "+5", "1_0"],
-    ".floatOrNone": ["1.0", "2.0", "3.0", "4.0", "0", "-1", "1e400", "nan", "inf", "-inf", "5.5", "none", ""],
+    ".floatOrNone": ["1.0", "2.0", "3.0", "4.0", "0", "-1", "1e400", "nan", "inf", "-inf", "5.5", "none", "", "1000.0", "9e4",
+                     "0.0", "-0.0", "1e-9", "0.5", "2.5"],
     ".strOrNone": ["", "none", "mp4a", "ec-3", "any", "im1t", "wvtt", "direct", "head", "http-ntp", "iso", "ntp",
                    "sntp", "xsd", "native", "dashjs", "shaka", "4.7.4", "9.9.9", "vod", "live", "odvod", "bbb_a1",
                    "bbb_a2", "tears_a1", "eng", "<&>\"'", "{{7*7}}", "x" * 300, "é"],
